@@ -14,6 +14,7 @@ import (
 	"github.com/google/mtail/internal/logline"
 	"github.com/google/mtail/internal/simrt"
 	"github.com/google/mtail/internal/tailer"
+	"github.com/google/mtail/internal/waker"
 )
 
 // C16 — a tailed file delivers every appended line exactly once across
@@ -63,7 +64,17 @@ type tailRig struct {
 func newTailRig(e *Env, opts ...tailer.Option) *tailRig {
 	r := &tailRig{e: e, lines: make(chan *logline.LogLine), sw: NewSimWaker(), pw: NewSimWaker()}
 	r.ctx, r.cancel = context.WithCancel(context.Background())
-	all := append([]tailer.Option{tailer.LogPatternPollWaker(r.pw), tailer.LogstreamPollWaker(r.sw)}, opts...)
+	var all []tailer.Option
+	if e.Choose("knob", 5) == 0 {
+		// configuration variant: mtail's own timed wakers, driven by the fake clock
+		const iv = 250 * time.Millisecond
+		adv := func() { e.S.Advance(iv) }
+		r.sw.adv, r.pw.adv = adv, adv
+		all = append([]tailer.Option{tailer.LogPatternPollWaker(waker.NewTimed(r.ctx, iv)), tailer.LogstreamPollWaker(waker.NewTimed(r.ctx, iv))}, opts...)
+		e.Probe("real_timed_wakers")
+	} else {
+		all = append([]tailer.Option{tailer.LogPatternPollWaker(r.pw), tailer.LogstreamPollWaker(r.sw)}, opts...)
+	}
 	r.mainID = e.S.Go("tailer.New", func() {
 		r.tl, r.startErr = tailer.New(r.ctx, &r.wg, r.lines, all...)
 		r.started = true
